@@ -85,6 +85,7 @@ type Op struct {
 	Val   *Tree  `json:"val"`
 	Bytes []int  `json:"bytes"`
 	Tail  []int  `json:"tail"`
+	Reuse bool   `json:"reuse"`
 }
 
 type Case struct {
@@ -133,6 +134,7 @@ func clip(s string, n int) string {
 type Ctx struct {
 	prog  *Prog
 	types map[string]reflect.Type // normalised emitted type name -> struct type
+	last  map[string]reflect.Value // packet name -> the object the previous dec op decoded into
 }
 
 func (c *Ctx) pkt(name string) (*Pkt, error) {
@@ -647,7 +649,16 @@ func (c *Ctx) runOp(op *Op) (ev J) {
 			ev["consumed"] = 0
 			return fail("member-missing", err)
 		}
-		inst := reflect.New(st)
+		// "reuse": decode into the object the previous dec op of this packet used (a receiver that is read in a
+		// loop / taken from a pool), otherwise into a fresh one
+		inst, reused := c.last[pk.Name]
+		if !op.Reuse || !reused {
+			inst = reflect.New(st)
+		}
+		if c.last == nil {
+			c.last = map[string]reflect.Value{}
+		}
+		c.last[pk.Name] = inst
 		bc, err := asCodec(inst)
 		if err != nil {
 			ev["consumed"] = 0
